@@ -34,6 +34,17 @@ def judge(ck, trace, what):
     ck.add_tlc("NifGraphTrace(%s)" % what, r, "post-fault contract on implementation runs")
     ck.cov["traces_validated_against_impl"] += n
     ck.cov["evaluations"] += n
+    drifts = sorted(x["drift"] for x in r.records if isinstance(x, dict) and "drift" in x)
+    if "graphs" in what:
+        nsort = sum(1 for l in open(trace) if '"op":"SortCorrupt"' in l)
+        ck.cov["sorter_transcription_exact_on"] = ck.cov.get("sorter_transcription_exact_on", 0) + nsort - len(drifts)
+    if drifts:
+        evs = vlib.read_ndjson(trace)
+        for d in drifts[:50]:
+            ev = evs[d - 1]
+            ck.note_drift({"what": "NifSort transcription differs from the library on a corrupt graph", "case": ev.get("case"),
+                           "pre": [[b["type"], b["refs"], b["ptrs"]] for b in ev["pre"]["blocks"]],
+                           "post": [[b["type"], b["refs"], b["ptrs"]] for b in ev["post"]["blocks"]]})
     if viols:
         evs = vlib.read_ndjson(trace)
         for v in viols:
@@ -157,6 +168,16 @@ def run(tier):
             for i, line in enumerate(f):
                 if i == 3000 and not name.endswith("asan"):
                     ck.sample({"corrupt_graph": json.loads(line)["g"]["blocks"]})
+    # ---- design level: the sorter transcription terminates on every corrupt graph (fuel never runs out)
+    mb = 2 if tier == "quick" else 3
+    cfg = os.path.join(wd, "nifsort.cfg")
+    open(cfg, "w").write("SPECIFICATION Spec\nCONSTANTS MaxBlocks = %d\n HasSizes = TRUE\n Rich = FALSE\n Export = FALSE\n Alphabet = \"sort\"\n"
+                         " Corrupt = TRUE\n OnlyAdd = TRUE\n ExportStates = FALSE\n Fuel = 300\n ExportSort = FALSE\n"
+                         "INVARIANT SortTerminates\nVIEW View\nCHECK_DEADLOCK FALSE\n" % mb)
+    r = vlib.tlc("NifSortMC", cfg, workers=12, timeout=6000, tag="c15-nifsort", heap="16g")
+    ck.add_tlc("NifSortMC(corrupt,mb%d)" % mb, r, "sorter transcription terminates on every graph incl. dangling / ill-typed / cyclic references (PrettySort and SetShapeOrder)")
+    if r.rc != 0:
+        ck.note_drift({"what": "NifSortMC: the sorter transcription violates %s in the model" % r.violated})
     for st in (states2, states3):
         if os.path.exists(st):
             os.remove(st)
